@@ -62,6 +62,8 @@ class UnitResult:
         self.fn_success = {}  # verus function name -> bool
         self.fn_time_us = {}
         self.tags = {}  # tag -> list of unit.rs lines carrying it
+        self.degraded = {}  # repository function -> why it was emitted as its contract only
+        self.forced_degrade = {}  # functions degraded because the unit did not compile with their text
         self.line_fn = {}  # unit line -> enclosing extracted item / function name
         self.items = []
         self.rules = {}
@@ -99,7 +101,43 @@ class UnitResult:
 
 
 def run_unit(unit, seed=None, rlimit=None, extra_args=None, use_cache=True, repo=None, assembled=False):
-    """extract + verify one unit; returns UnitResult"""
+    """extract + verify one unit; returns UnitResult.
+
+    Function-level degradation: a function vx cannot extract (lost anchor, uncovered closure, changed shape) is
+    emitted as signature + contract with its tags neutralised (vx does that by itself); a function in whose text
+    the assembled unit does not *compile* is degraded the same way here and the unit re-extracted (at most 4
+    rounds).  Only the properties with an obligation in a degraded function become undecided (their baseline
+    homes are missing); the other functions of the unit are still verified against the degraded one's contract."""
+    if assembled or os.environ.get("ZV_NO_DEGRADE"):
+        return _run_unit_once(unit, seed, rlimit, extra_args, use_cache, repo, assembled, None)
+    degrade = {}
+    res = None
+    for _round in range(5):
+        res = _run_unit_once(unit, seed, rlimit, extra_args, use_cache, repo, False, degrade)
+        if not res.compile_error or res.refused:
+            break
+        culprit = None
+        for d in res.diags:
+            if d.get("kind", "other") not in ("other",) and "kind" in d:
+                continue
+            for (ln, label, txt, fname, prim) in d["spans"]:
+                if not fname.endswith("unit.rs"):
+                    continue
+                it = next((i for i in res.items if i["kind"] == "fn" and i["unit_lines"][0] <= ln <= i["unit_lines"][1]), None)
+                if it is not None and "ASSUMED" not in it.get("rules", []) and not it.get("degraded") and it["name"] not in degrade:
+                    culprit = (it["name"], "the unit does not compile with the current text of this function: " + d["message"][:160].replace(";;", ";").replace("=", ":"))
+                    break
+            if culprit:
+                break
+        if not culprit:
+            break
+        degrade[culprit[0]] = culprit[1]
+    if res is not None:
+        res.forced_degrade = dict(degrade)
+    return res
+
+
+def _run_unit_once(unit, seed=None, rlimit=None, extra_args=None, use_cache=True, repo=None, assembled=False, degrade=None):
     ensure_vx()
     repo = repo or REPO
     res = UnitResult(unit)
@@ -107,7 +145,7 @@ def run_unit(unit, seed=None, rlimit=None, extra_args=None, use_cache=True, repo
     spec = os.path.join(VERIF, "spec", unit + ".vs")
     t0 = time.time()
     if not assembled:
-        r = sh([VX, "--repo", repo, "--spec", spec, "--out", res.dir, "--prelude", os.path.join(VERIF, "prelude")])
+        r = sh([VX, "--repo", repo, "--spec", spec, "--out", res.dir, "--prelude", os.path.join(VERIF, "prelude")] + (["--degrade", ";;".join("%s=%s" % kv for kv in degrade.items())] if degrade else []) + (["--no-degrade"] if os.environ.get("ZV_NO_DEGRADE") else []))
         if r.returncode != 0:
             res.refused = (r.stderr.strip() or r.stdout.strip() or "vx failed")[-2000:]
             return res
@@ -117,6 +155,7 @@ def run_unit(unit, seed=None, rlimit=None, extra_args=None, use_cache=True, repo
     mp = json.load(open(os.path.join(res.dir, "map.json")))
     res.map_lines = mp["lines"]
     res.items = mp["items"]
+    res.degraded = {i["name"]: i["degraded"] for i in res.items if i.get("degraded")}
     res.rules = json.load(open(os.path.join(res.dir, "rules.json")))
     for i, l in enumerate(res.lines):
         for m in TAG_RE.finditer(l):
@@ -291,13 +330,13 @@ def run_unit_portfolio(unit, seeds=(11, 23, 37), **kw):
     return res
 
 
-def run_vacuity(unit, repo=None):
+def run_vacuity(unit, repo=None, degrade=None):
     """vacuity guard (DESIGN §9): re-extract with a probe `assert(!vac_probe(N))` at every function entry, loop
     body and live select/match arm; every probe must FAIL.  Returns (number of probes, [probes that verified])."""
     ensure_vx()
     d = os.path.join(BUILD, "vac", unit)
     os.makedirs(d, exist_ok=True)
-    r = sh([VX, "--repo", repo or REPO, "--spec", os.path.join(VERIF, "spec", unit + ".vs"), "--out", d, "--prelude", os.path.join(VERIF, "prelude"), "--vacuity"])
+    r = sh([VX, "--repo", repo or REPO, "--spec", os.path.join(VERIF, "spec", unit + ".vs"), "--out", d, "--prelude", os.path.join(VERIF, "prelude"), "--vacuity"] + (["--degrade", ";;".join("%s=%s" % kv for kv in degrade.items())] if degrade else []))
     if r.returncode != 0:
         raise Undecided("vacuity extraction of %s refused: %s" % (unit, r.stderr.strip()[-500:]))
     probes = json.load(open(os.path.join(d, "probes.json")))
@@ -312,6 +351,7 @@ def run_vacuity(unit, repo=None):
         err = rr.stderr
         json.dump({"err": err}, open(cpath, "w"))
     failed = set()
+    other_errors = []
     for l in err.split("\n"):
         if not l.startswith("{"):
             continue
@@ -319,11 +359,15 @@ def run_vacuity(unit, repo=None):
             dj = json.loads(l)
         except Exception:
             continue
+        if dj.get("level") == "error" and not any(k in dj.get("message", "") for k in ("assertion failed", "aborting due to", "postcondition not satisfied", "precondition not satisfied", "invariant not satisfied", "could not prove termination", "esource limit", "possible arithmetic", "decreases not satisfied")):
+            other_errors.append(dj.get("message", ""))
         if dj.get("level") == "error" and "assertion failed" in dj.get("message", ""):
             for sp in dj.get("spans", []):
                 for t in sp.get("text", []):
                     for m in re.finditer(r"vac_probe\((\d+)\)", t.get("text", "")):
                         failed.add(int(m.group(1)))
+    if other_errors and not failed:
+        raise Undecided("the vacuity extraction of %s did not compile: %s" % (unit, other_errors[0][:200]))
     unreached = [p for p in probes if p["n"] not in failed]
     return len(probes), unreached
 
